@@ -444,6 +444,39 @@ func objIndexesDisagree(d *document.Document) bool {
 	return bad
 }
 
+// sharedIdentities reports whether the document holds two element instances under one
+// createdAt (tombstones included). Undo/redo creates them by design: the reverse of a
+// removal re-inserts a deep COPY whose descendants keep their identity (and an object
+// member restore keeps even its own), next to the tombstoned original. Which instance
+// an identity resolves to then depends on how the document was built (incrementally,
+// or from a snapshot walk) - recorded finding F-RESTORE-SHARED-IDENTITY.
+func sharedIdentities(d *document.Document) bool {
+	seen := map[string]bool{}
+	dup := false
+	var walk func(e crdt.Element)
+	walk = func(e crdt.Element) {
+		k := e.CreatedAt().Key()
+		if seen[k] {
+			dup = true
+		}
+		seen[k] = true
+		switch v := e.(type) {
+		case *crdt.Object:
+			for _, n := range v.RHTNodes() {
+				walk(n.Element())
+			}
+		case *crdt.Array:
+			for _, n := range v.AllRGANodes() {
+				if n.Element() != nil {
+					walk(n.Element())
+				}
+			}
+		}
+	}
+	walk(d.RootObject())
+	return dup
+}
+
 // walkGarbage computes from the STRUCTURE what Root's registry must count:
 // elements that are removed or live under a removed container, plus node-level
 // tombstones keyed the way the registry keys them (an id registered twice is
@@ -534,13 +567,28 @@ func (w *c09Worker) runLossless(res *runner.CaseResult, idx int, seed int64, rp 
 	serverSeq := int64(0)
 	var steps []c09Step
 	stop := false
+	// restoredTwice: two Set operations of different changes put the same member identity
+	// back (precondition of F-RESTORE-TWICE), read off the delivered changes
+	restoredTwice := false
+	restoredBy := map[string]*change.Change{}
 	viol := func(kind, detail string) {
 		stop = true
 		var prog []string
 		for _, st := range steps {
 			prog = append(prog, st.String())
 		}
-		res.Violate(kind, detail+"\nhistory: "+strings.Join(prog, "; "), "", c09Replay{Family: "lossless", Seed: seed, Idx: idx, Steps: steps, Unfenced: !fenced})
+		ident := ""
+		if fenced && restoredTwice && (strings.HasPrefix(kind, "decoded-") || strings.HasPrefix(kind, "snapshot-")) {
+			ident = "restore-twice:" + kind
+		} else if fenced && strings.HasPrefix(kind, "decoded-") || fenced && strings.HasPrefix(kind, "snapshot-") {
+			for _, f := range followers {
+				if sharedIdentities(f) {
+					ident = "shared-identity:" + kind
+					break
+				}
+			}
+		}
+		res.Violate(kind, detail+"\nhistory: "+strings.Join(prog, "; "), ident, c09Replay{Family: "lossless", Seed: seed, Idx: idx, Steps: steps, Unfenced: !fenced})
 	}
 	special, delivered, undone := 0, 0, 0
 	// deliver the pending changes of an author to the other author and to all followers
@@ -548,6 +596,17 @@ func (w *c09Worker) runLossless(res *runner.CaseResult, idx int, seed int64, rp 
 		pack := from.CreateChangePack()
 		if len(pack.Changes) == 0 {
 			return
+		}
+		for _, c := range pack.Changes {
+			for _, op := range c.Operations() {
+				if o, ok := op.(*operations.Set); ok && o.Value() != nil && o.Value().CreatedAt().Key() != o.ExecutedAt().Key() {
+					k := o.Value().CreatedAt().Key()
+					if c0, seen := restoredBy[k]; seen && c0 != c {
+						restoredTwice = true
+					}
+					restoredBy[k] = c
+				}
+			}
 		}
 		if carriesDedupState(pack.Changes) {
 			res.AddStat("ops_carrying_dedup_state", 1)
